@@ -64,6 +64,13 @@ structure Normalizer where
 
 def Normalizer.eval (m : Normalizer) (x : Vec) (j : Nat) : Rat := m.diag j * x.at j + m.offset j
 
+/-- the model's output on one row, as a row of dimension `d` -/
+def Normalizer.apply (m : Normalizer) (d : Nat) (x : Vec) : Vec := (List.range d).map fun j => m.eval x j
+
+/-- the model's output on a batched dataset (same batch structure) -/
+def Normalizer.applyData (m : Normalizer) (d : Nat) (bs : List (List Vec)) : List (List Vec) :=
+  bs.map fun b => b.map (m.apply d)
+
 /-- `NormalizeComponentsUnitVariance::train` (`sqrt` is `std::sqrt`, a parameter).
 `zeroMean = false` installs no offset. -/
 def unitVariance (sqrt : Rat → Rat) (zeroMean : Bool) (bs : List (List Vec)) : Normalizer where
